@@ -1714,4 +1714,21 @@ def switch_bbox_epsg_axis_order""", 'C01.a'),
             return False
 """, 'C14.m', 'revert of fix D50 (polygon coverage)'),
 
+    M('M-C11n-revert-D51-script', 'mapproxy/seed/script.py', """                                     continue_seed=options.continue_seed,
+                                     read_only=options.dry_run)""", """                                     continue_seed=options.continue_seed)""", 'C11.n', 'revert of fix D51 (the script builds a writable store in a dry run)'),
+    M('M-C11n-revert-D51-write', 'mapproxy/seed/util.py', """    def write(self):
+        if self.read_only:
+            return
+""", """    def write(self):
+""", 'C11.n', 'revert of fix D51 (write ignores the flag)'),
+    M('M-C11n-remove-ignores-flag', 'mapproxy/seed/util.py', """        self.status = {}
+        if self.read_only:
+            return
+""", """        self.status = {}
+""", 'C11.n', 'a finished dry run removes the progress of a real run'),
+    M('M-C11n-flag-inverted', 'mapproxy/seed/script.py', """read_only=options.dry_run)""", """read_only=not options.dry_run)""", 'C11.n', 'flag inverted: real runs never save progress... and dry runs do'),
+    E('E-C11n-no-store-in-dry-run', 'mapproxy/seed/script.py', """        if options.continue_seed or options.progress_file:
+            if not options.progress_file:""", """        if (options.continue_seed or options.progress_file) and not options.dry_run:
+            if not options.progress_file:""", 'no progress store at all in a dry run: equally sound', ['C11']),
+
 ]
